@@ -896,6 +896,8 @@ class EmbeddedSignature(Signature):
 
     def parse(self, packet):
         super(EmbeddedSignature, self).parse(packet)
+        # the embedded packet has no header of its own: it is as long as this subpacket's body
+        self._sig.header.length = self.header.length - 1
         self._sig.parse(packet)
 
 
